@@ -203,7 +203,10 @@ def renderCmp (name : String) (c : Option CTable) : String :=
   match c with
   | none => s!"cmp {name} crash"
   | some c =>
-    let ix := if c.index.isEmpty then "-" else ",".intercalate (c.index.map toString)
+    -- the index bytes in use: readers take `first_defined - num_compressed` of them (after the overflow branch the
+    -- allocation is longer, the rest holds markers)
+    let used := c.index.take (c.firstDefined - c.numCompressed)
+    let ix := if used.isEmpty then "-" else ",".intercalate (used.map toString)
     let st := if c.offsets.isEmpty then "-" else ",".intercalate (c.offsets.map renderREntry)
     s!"cmp {name} fdef={c.firstDefined} fov={c.firstOverload} ncomp={c.numCompressed} ndel={c.numDeleted} ix={ix} st={st}"
 
